@@ -39,6 +39,8 @@ Times  == {<<2024, 2, 29, 12, 34, 56, 0>>, <<2050, 1, 1, 0, 0, 0, 0>>, <<1949, 1
            <<1999, 6, 1, 1, 2, 3, 3600>>}
 UTimes == {<<2024, 2, 29, 12, 34, 56, 0>>, <<1999, 6, 1, 1, 2, 3, -5400>>}
 Octs   == {<<>>, <<1, 2>>}
+FillO(k) == [i \in 1..k |-> 7]
+LenOcts == {FillO(127), FillO(128), FillO(255), FillO(256)}      \* DER length-form boundaries
 Raws   == {<<0, 5, FALSE, <<>>>>, <<2, 1, TRUE, <<4, 0>>>>, <<1, 40, FALSE, <<7>>>>}
 IntSeqs == {<<>>, <<<<1, <<5>>>>>>, <<<<1, <<1, 44>>>>, <<-1, <<1>>>>, <<1, <<5>>>>>>}
 Inner  == T("struct", P, <<I(P), T("bool", Opt(P), <<>>)>>)
@@ -61,7 +63,8 @@ LargeMenu == {
   <<T("bits", P, <<>>), BitsV>>, <<T("bits", Tag(Opt(P), 10), <<>>), BitsV>>,
   <<T("time", P, <<>>), Times>>, <<T("time", Tt(P, "generalized"), <<>>), Times>>, <<T("time", Tt(P, "utc"), <<>>), UTimes>>,
   <<T("time", Expl(P, 11), <<>>), Times>>, <<T("time", Tag(P, 11), <<>>), UTimes>>,
-  <<T("octets", P, <<>>), Octs>>, <<T("octets", Tag(Opt(P), 12), <<>>), Octs>>,
+  <<T("octets", P, <<>>), Octs \cup LenOcts>>, <<T("octets", Tag(Opt(P), 12), <<>>), Octs>>,
+  <<T("octets", Expl(P, 16), <<>>), {FillO(125), FillO(126), FillO(251), FillO(252)}>>,   \* the wrapper crosses the boundary
   <<T("raw", P, <<>>), Raws>>,
   <<T("seqof", P, <<I(P)>>), IntSeqs>>, <<T("seqof", [Opt(P) EXCEPT !.omit = TRUE], <<I(P)>>), IntSeqs>>,
   <<T("seqof", [P EXCEPT !.set = TRUE], <<I(P)>>), IntSeqs>>, <<T("setof", P, <<I(P)>>), IntSeqs>>,
